@@ -118,6 +118,13 @@ theorem legal_order_accepted (qs : List CQueue) (items : List RItem) (hl : Legal
     ((Core.fresh qs).replay items).2 = items :=
   legalFrom_all_accepted qs items hl
 
+/-- **A key replayed as an ask and reported as bound later** (a shim that learns about the binding during the replay, or
+    places the pod itself afterwards) goes through the "ask → allocation" transition branch of UpdateAllocation
+    (`Core.recBind`: AllocateAsk, IncAllocatedResource without limit, forced Node.AddAllocation of the application's own
+    object, AddAllocation).  It keeps the books of any well-formed state balanced — no capacity or quota hypothesis. -/
+theorem bound_later_keeps_books (s : Core) (x : RAlloc) (hw : CoreWF s) (hb : Books s) : Books (s.recBind x).1 :=
+  books_recBind s x hw hb
+
 /-- The order assumption is needed: an allocation replayed before its node and application is refused (and stays
     refused: nothing is booked for it). -/
 theorem illegal_order_refused :
@@ -223,6 +230,14 @@ example : (((Core.fresh exTree).replay exItems).1.apps.map (fun a => (a.id, a.st
     [("app-2", "Running", [("cpu", 3)], [("cpu", 2)])] := by decide
 example : (((Core.fresh exTree).replay exItems).1.nodes.map (fun n => (n.id, n.allocated, n.available))) =
     [("n1", [("cpu", 3)], [("cpu", 1)])] := by decide
+/-- ask first, bound later: the application and the node end with the totals of the direct recovery -/
+example :
+    let x : RAlloc := { app := "app-2", key := "k1", node := "n1", res := [("cpu", 3)], ph := false, tg := "", reqNode := "" }
+    let viaAsk := (((Core.fresh exTree).replay [exItems[0], exItems[1], .ask { x with node := "" }]).1.recPlaced x).1
+    let direct := ((Core.fresh exTree).replay [exItems[0], exItems[1], .alloc x]).1
+    viaAsk.apps.map (fun a => (a.state, a.allocated, a.pending)) = direct.apps.map (fun a => (a.state, a.allocated, a.pending)) ∧
+    viaAsk.nodes.map (fun n => (n.allocated, n.available, n.allocs)) = direct.nodes.map (fun n => (n.allocated, n.available, n.allocs)) := by
+  decide
 /-- the same items, the ask before the allocation -/
 example : ((Core.fresh exTree).replay [exItems[0], exItems[1], exItems[3], exItems[2]]).2 = [exItems[0], exItems[1], exItems[3], exItems[2]] := by decide
 
